@@ -362,6 +362,9 @@ class Evaluator:
     def ev_lit(self, t, env):
         return thaw(t[1]) if t[1][0] in ("list", "set", "map") else t[1]
 
+    def ev_src(self, t, env):
+        return t[2]
+
     def ev_var(self, t, env):
         e = env.lookup_env(t[1])
         if e is None:
